@@ -122,6 +122,31 @@ func TestVerif_C16(t *testing.T) {
 		}
 		states = append(states, st)
 	}
+	// root name heap filled so that exactly the follow-up name "new" still fits (found by a dry
+	// run): a refused call that leaves even one byte behind in that heap makes the follow-up fail
+	heapExact := -1
+	for L := 100; L <= 160 && heapExact < 0; L++ {
+		st := []vfOp{mkX, mkG, {Op: "mkds", Path: "/" + strings.Repeat("A", 100), Type: "u8", Dims: []uint64{1}}, {Op: "mkds", Path: "/" + strings.Repeat("B", L), Type: "u8", Dims: []uint64{1}}}
+		fits := func(name string) bool {
+			w, err := vfNewWorld(dir)
+			if err != nil {
+				return false
+			}
+			defer w.Remove()
+			for _, o := range st {
+				if e, _ := w.Apply(o); e != nil {
+					return false
+				}
+			}
+			e, _ := w.Apply(vfOp{Op: "mkds", Path: "/" + name, Type: "i32", Dims: []uint64{2}})
+			return e == nil
+		}
+		if fits("new") && !fits("new1") {
+			heapExact = L
+			states = append(states, st)
+		}
+	}
+	r.Set("root_name_heap_exact_fill_found(length of the tuned name)", heapExact)
 	// header-fill states: /x's object header at every reachable total in [236,255] message
 	// bytes (no reference count yet): a hard link to /x then fails for lack of header space
 	fillStates := vfHeaderFillStates(dir, mkX, 236, 255)
@@ -214,7 +239,7 @@ func TestVerif_C16(t *testing.T) {
 			vfOp{Op: "hardlink", Path: "/lx2", Target: "/x"}, vfOp{Op: "attr", Path: "/x", Name: "t", Value: "u8"})
 		return out
 	}
-	r.Rule(fmt.Sprintf("states = every valid prefix of length <= %d over 9 valid operations plus 4 capacity-adjacent states (group with 32 entries, name heap nearly full, dense attributes, header nearly full); for each state every call of the failing-call catalogue (%d kinds, aimed at each existing object) and 4 capacity probes, followed by each of 13 valid follow-ups (8 single calls, 5 two-call sequences on the object the failing call was aimed at); when the call returned an error the closed file must dump equal to the run without the call, the follow-up must return the same, nothing may panic, Close x3 must return nil; non-trivial = the candidate call returned an error", depth, len(vfBadCalls)))
+	r.Rule(fmt.Sprintf("states = every valid prefix of length <= %d over 9 valid operations plus capacity-adjacent states (group with 32 entries, name heap nearly full, root name heap with room for exactly the follow-up name, dense attributes, header nearly full); for each state every call of the failing-call catalogue (%d kinds, aimed at each existing object) and 4 capacity probes, followed by each of 13 valid follow-ups (8 single calls, 5 two-call sequences on the object the failing call was aimed at); when the call returned an error the closed file must dump equal to the run without the call, the follow-up must return the same, nothing may panic, Close x3 must return nil; non-trivial = the candidate call returned an error", depth, len(vfBadCalls)))
 	type job struct {
 		s []vfOp
 		f vfOp
